@@ -120,6 +120,8 @@ def run(repo, rep, tier):
     # a partial result that is merged must stay usable in another reduction schedule: a + b may not adopt children of a or b
     rep.borrow(repo, "C06", {"R6.2": ("R1.10", "a + b and zero() share no fillable child with their operands (partials stay valid for other schedules)", 40)},
                keep=lambda f: f.construct.endswith(".__add__") or f.construct.endswith(".zero"))
+    rep.borrow(repo, "C04", {"R4.5": ("R1.11", "a + b and zero() of partial results reloaded from JSON keep what only ed() establishes (the result can be merged again)", 20)},
+               keep=lambda f: f.construct.endswith(".__add__") or f.construct.endswith(".__iadd__") or f.construct.endswith(".zero"))
     rep.borrow(repo, "C07", {"R7.2": ("R1.8", "combining partial results with += keeps the receiver (every __iadd__ returns self)", 19),
                              "R7.1": ("R1.9", "+= merges every content field the way + does", 50)})
     for c in prims:
